@@ -3,10 +3,12 @@
 
     c13build <opts> <ops>     → `C <cfg…> I <init>` (the machine `Build.build` constructs) | `raise`
     c13equiv <cfg> <cfg>      → `ok` | `reject`      (verified checker `Build.equivCheck`, see Props/C13)
+    c13names <mode> <scope> <segments> <paths>   → `ok <paths>` | `raises` | `replaces`   (Model/NestedNames.lean)
 -/
 import Handlers.Basic
 import Model.Build
 import Model.Spec.C13
+import Model.NestedNames
 
 namespace Handlers
 open TM TM.Codec TM.Build
@@ -39,8 +41,6 @@ def cbSpec : P CbSpec := do
 
 def oarg : P OArg := opt (list nats)
 
-def selP : P Sel := do let name ← nat; let str ← bool; pure { name, str }
-
 def opP : P Op := do
   let k ← nat
   match k with
@@ -50,7 +50,7 @@ def opP : P Op := do
     let ev ← nat; let sts ← opt nats; let loop ← bool; let incl ← bool
     let c ← oarg; let u ← oarg; let bf ← oarg; let af ← oarg; let pr ← oarg
     pure (.addOrdered ev sts loop incl c u bf af pr)
-  | 3 => do let ev ← nat; let s ← opt (list selP); let d ← opt (list selP); pure (.remove ev s d)
+  | 3 => do let ev ← nat; let s ← opt nats; let d ← opt nats; pure (.remove ev s d)
   | _ => Op.setInitial <$> nat
 
 def optsP : P Opts := do
@@ -88,7 +88,19 @@ def c13equiv : P String := do
   let b ← cfg
   pure (if equivCheck a b then "ok" else "reject")
 
+/-- `c13names <mode 0 joined | 1 dict chain> <scope> <segments> <registered paths>` → `ok <paths>` | `raises` | `replaces` -/
+def c13names : P String := do
+  let mode ← nat
+  let sc ← nats
+  let segs ← nats
+  let s ← list nats
+  let r := if mode = 0 then NestedNames.addJoined sc segs s else NestedNames.addChainDict sc segs s
+  pure (match r with
+    | .ok l => s!"ok {joinNats (l.length :: l.flatMap fun p => p.length :: p)}"
+    | .raises => "raises"
+    | .replaces => "replaces")
+
 def hC13 : List (String × Handler) :=
-  [("c13build", run c13build), ("c13equiv", run c13equiv)]
+  [("c13build", run c13build), ("c13equiv", run c13equiv), ("c13names", run c13names)]
 
 end Handlers
